@@ -69,6 +69,7 @@ public:
         bool operator!=(const iterator& o) const { return pos != o.pos; }
         iterator& operator+=(size_t k) { adv(k); return *this; }
         iterator operator+(size_t k) const { iterator i(*this); i.adv(k); return i; }
+        long operator-(const iterator& o) const { return pos - o.pos; }
         void adv(size_t k) { if (k > size_t(n - pos) + (pos <= n ? 0 : 0) || pos > n) { if (pos + long(k) > n) g_buf.move_out++; pos = pos + long(k) > n + 1000000 ? n + 1000000 : pos + long(k); } else pos += long(k); }
     };
     iterator begin() const { return iterator{b, 0, n, tr}; }
